@@ -133,6 +133,10 @@ func explore(s *Spec, b *built, sref *staticRef, cache simCache, f func(h hit)) 
 		for j := 0; j < nv; j++ {
 			k := runKey{vi, j}
 			sim, p := cache.get(s, k, values[vi], pt, ptSig)
+			if sim.Skip != "" {
+				f(hit{verdict{Info: "skipped"}, k, &observed{Mode: "none"}, sim})
+				continue
+			}
 			for _, mode := range [2]string{"invoke", "stream"} {
 				o := runOnce(b, p, values[vi], mode)
 				f(hit{judge(s, sim, o, b, sref), k, o, sim})
@@ -272,6 +276,11 @@ func shrinkCandidates(s *Spec) []*Spec {
 		dec(func(n *Spec) bool { x := &n.Nodes[i]; ok := x.OutKey != ""; x.OutKey = ""; return ok })
 		dec(func(n *Spec) bool { x := &n.Nodes[i]; ok := x.Echo; x.Echo = false; return ok })
 		dec(func(n *Spec) bool { x := &n.Nodes[i]; ok := x.Kind == kTrans; x.Kind = kInv; return ok && x.Kind == kInv })
+		dec(func(n *Spec) bool { x := &n.Nodes[i]; ok := x.Nil; x.Nil = false; return ok })
+		dec(func(n *Spec) bool { x := &n.Nodes[i]; ok := x.Pre >= 0 && x.PreConv > 0; x.PreConv = 0; return ok })
+		dec(func(n *Spec) bool { x := &n.Nodes[i]; ok := x.Post >= 0 && x.PostConv > 0; x.PostConv = 0; return ok })
+		dec(func(n *Spec) bool { x := &n.Nodes[i]; ok := x.Pre >= 0 && x.PreConv == 2; x.PreConv = 1; return ok })
+		dec(func(n *Spec) bool { x := &n.Nodes[i]; ok := x.Post >= 0 && x.PostConv == 2; x.PostConv = 1; return ok })
 		dec(func(n *Spec) bool { x := &n.Nodes[i]; ok := x.PreStream; x.PreStream = false; return ok })
 		dec(func(n *Spec) bool { x := &n.Nodes[i]; ok := x.PostStream; x.PostStream = false; return ok })
 	}
@@ -279,6 +288,26 @@ func shrinkCandidates(s *Spec) []*Spec {
 		i := i
 		dec(func(n *Spec) bool { ok := n.Calls[i].StreamCond; n.Calls[i].StreamCond = false; return ok })
 	}
+	for i := range s.Calls {
+		i := i
+		dec(func(n *Spec) bool { ok := n.Calls[i].mapped(); n.Calls[i].Maps = nil; return ok })
+	}
+	// the same construction through the Graph front end
+	dec(func(n *Spec) bool {
+		if n.Front == feGraph {
+			return false
+		}
+		for _, c := range n.Calls {
+			if c.mapped() {
+				return false
+			}
+		}
+		if n.Front == feWorkflow {
+			n.DAG = true // a workflow runs in all-predecessor mode
+		}
+		n.Front = feGraph
+		return true
+	})
 	dec(func(n *Spec) bool { ok := n.DAG; n.DAG = false; return ok })
 	dec(func(n *Spec) bool {
 		if !n.State {
@@ -327,10 +356,16 @@ func shapeOf(s *Spec, h *hit) string {
 		f = &tr.Fails[i]
 		break
 	}
+	// the front end the minimal construction still needs (the Graph form of it was
+	// tried while shrinking and did not fail in this way)
+	front := ""
+	if s.Front != feGraph {
+		front = "@" + frontNames[s.Front]
+	}
 	// a branch added on a pass-through node that already had a typed neighbour of
 	// another type: the one construction feature left that re-types an inferred node
 	for i, c := range s.Calls {
-		if n := s.node(c.From); c.Branch && n != nil && n.Kind == kPass {
+		if n := s.node(c.From); c.Branch && n != nil && n.transparent() {
 			pre := s.clone()
 			pre.Calls = pre.Calls[:i]
 			for _, ct := range refStatic(pre).PassCands[c.From] {
@@ -340,25 +375,51 @@ func shapeOf(s *Spec, h *hit) string {
 			}
 		}
 	}
+	handlerKind := func(k string) bool {
+		return k == "pre-handler" || k == "post-handler" || k == "handler-state"
+	}
+	// decorations that survived shrinking (they would have been dropped if the failure
+	// did not need them): a nil interface value emitted by a node or handed on by a
+	// handler; a handler that hands on another value than it received; a handler on a
+	// pass-through node that carries an input/output key
+	for i := range s.Nodes {
+		if n := &s.Nodes[i]; (n.Nil && isIface(n.Out)) || (n.Pre >= 0 && n.PreConv == 2 && isIface(n.Pre)) || (n.Post >= 0 && n.PostConv == 2 && isIface(n.Post)) {
+			return "nil-interface-value" + front
+		}
+	}
+	for i := range s.Nodes {
+		if n := &s.Nodes[i]; (n.Pre >= 0 && n.PreConv > 0) || (n.Post >= 0 && n.PostConv > 0) {
+			if f == nil || !handlerKind(f.Kind) {
+				return "state-handler-changes-dynamic-type" + front
+			}
+		}
+	}
+	for i := range s.Nodes {
+		if n := &s.Nodes[i]; n.Kind == kPass && (n.InKey != "" || n.OutKey != "") && (n.Pre >= 0 || n.Post >= 0) {
+			if f == nil || !handlerKind(f.Kind) {
+				return "state-handler-on-keyed-passthrough" + front
+			}
+		}
+	}
 	// a state handler that survived shrinking on a pass-through node (the handler
 	// would have been dropped if the failure did not need it)
 	for i := range s.Nodes {
 		if n := &s.Nodes[i]; n.Kind == kPass && (n.Pre >= 0 || n.Post >= 0) {
 			if f == nil || (f.Kind != "pre-handler" && f.Kind != "post-handler" && f.Kind != "handler-state") {
-				return "state-handler-on-passthrough"
+				return "state-handler-on-passthrough" + front
 			}
 		}
 	}
 	if f != nil {
 		switch {
 		case f.Kind == "branch-cond" && f.OnPass:
-			return "branch-cond-on-passthrough"
+			return "branch-cond-on-passthrough" + front
 		case f.OnPass:
-			return f.Kind + "-on-passthrough"
+			return f.Kind + "-on-passthrough" + front
 		case f.ViaPass:
-			return f.Kind + "-via-passthrough"
+			return f.Kind + "-via-passthrough" + front
 		default:
-			return f.Kind
+			return f.Kind + front
 		}
 	}
 	// the reference predicts no mismatch at all: name the features that are left
@@ -372,12 +433,18 @@ func shapeOf(s *Spec, h *hit) string {
 		return false
 	}
 	if has("pre-handler") || has("post-handler") {
-		return "state-handler"
+		return "state-handler" + front
 	}
-	if len(fs) == 0 {
-		return "well-typed-plain-edges"
+	var rest []string
+	for _, f := range fs {
+		if !strings.HasPrefix(f, "front-") && !(strings.HasPrefix(f, "branch-") && f != "branch-on-passthrough" && f != "branch-on-start") {
+			rest = append(rest, f)
+		}
 	}
-	return "well-typed:" + strings.Join(fs, "+")
+	if len(rest) == 0 {
+		return "well-typed-plain-edges" + front
+	}
+	return "well-typed:" + strings.Join(rest, "+") + front
 }
 
 // ---- the check -------------------------------------------------------------------------
@@ -450,10 +517,31 @@ func runCase(rep *mon.Reporter, idx int64, rng *mon.Rand) {
 	sref := refStatic(s)
 	nc := len(s.Calls)
 	var orders [][]int
-	if nc <= maxExhaustive {
+	repeats := 3
+	switch {
+	case s.Front == feChain:
+		// a chain dictates the order of the calls; AppendBranch adds the arms in map order
+		orders = [][]int{identity(nc, 0).Order}
+		repeats = 6
+		rep.Count("specs_chain_order", 1)
+	case s.Front == feWorkflow:
+		// a workflow resolves its declarations at Compile, node by node in map order: fewer
+		// orders of the calls, more identical repetitions
+		repeats = 4
+		if nc <= 3 {
+			orders = permutations(nc)
+		} else {
+			or := rng.Sub("orders")
+			orders = append(orders, identity(nc, 0).Order)
+			for len(orders) < 12 {
+				orders = append(orders, or.Perm(nc))
+			}
+		}
+		rep.Count("specs_workflow_orders", 1)
+	case nc <= maxExhaustive:
 		orders = permutations(nc)
 		rep.Count("specs_all_orders", 1)
-	} else {
+	default:
 		or := rng.Sub("orders")
 		orders = append(orders, identity(nc, 0).Order)
 		for len(orders) < 200 {
@@ -480,7 +568,7 @@ func runCase(rep *mon.Reporter, idx int64, rng *mon.Rand) {
 		a := attempt{Order: ord, Policy: oi % 3}
 		rep.Distinct("orders", s.String()+fmt.Sprint(ord, a.Policy))
 		firstOutcome := ""
-		for r := 0; r < 3; r++ {
+		for r := 0; r < repeats; r++ {
 			b := build(s, a)
 			rep.Count("attempts", 1)
 			rep.AddEvaluations(1)
@@ -507,6 +595,7 @@ func runCase(rep *mon.Reporter, idx int64, rng *mon.Rand) {
 			}
 			accepted++
 			rep.Count("attempts_accepted", 1)
+			rep.Count("attempts_accepted_"+frontNames[s.Front], 1)
 			if refReject {
 				rep.Count("info_attempts_accepted_though_transparent_reference_demands_rejection", 1)
 			}
@@ -530,14 +619,24 @@ func runCase(rep *mon.Reporter, idx int64, rng *mon.Rand) {
 					switch h.V.Info {
 					case "ok":
 						rep.Count("runs_ok", 1)
+						rep.Count("runs_ok_"+frontNames[s.Front], 1)
+						if h.Sim.NilSeen {
+							rep.Count("runs_ok_with_nil_interface_value", 1)
+						}
 					case "expected-error":
 						rep.Count("runs_expected_error", 1)
+						rep.Count("runs_expected_error_"+frontNames[s.Front], 1)
 						rep.Count("runs_expected_error_at_"+h.V.Fail.Kind, 1)
+						if h.Sim.NilSeen {
+							rep.Count("runs_expected_error_with_nil_interface_value", 1)
+						}
 						if h.V.Fail.ViaPass || h.V.Fail.OnPass || h.V.Fail.Kind == "passthrough-input" {
 							rep.Count("runs_expected_error_through_passthrough", 1)
 						}
 					case "unjudged":
 						rep.Count("runs_unjudged", 1)
+					case "skipped":
+						rep.Count("runs_not_made_nil_final_output", 1)
 					default:
 						rep.Count("harness_"+h.V.Info, 1)
 						rep.Inconclusive(fmt.Sprintf("%s: %s | %s order %v", h.V.Info, h.V.Text, s.String(), ord))
